@@ -386,6 +386,28 @@ def strategyOk (c : Cfg) : Bool :=
   ((scriptStrategy c).nodes[1]?.map (fun n => n.timeouts.all (fun t => 104 < t.2.2))) == some true &&
   mutualDyn (scriptStrategy c)
 
+/-! ## LANs numbered outside RFC 1918 (carrier-grade NAT 100.64/10, other address space behind a NAT) -/
+
+/-- R at 100.64.1.2 behind box 1; P at 100.64.1.3 behind the same box (`same`) or behind box 2 (otherwise) -/
+def cgnR (c : Cfg) : Host := { lan := ⟨ipv4 100 64 1 2, 8090⟩, wan := ⟨ipv4 2 2 2 2, 40001⟩, box := 1, typ := c.tR }
+def cgnP (c : Cfg) : Host :=
+  if c.pl == .same then { lan := ⟨ipv4 100 64 1 3, 8090⟩, wan := ⟨ipv4 2 2 2 2, 40002⟩, box := 1, typ := c.tP }
+  else { lan := ⟨ipv4 100 64 1 3, 8090⟩, wan := ⟨ipv4 3 3 3 3, 40002⟩, box := 2, typ := c.tP }
+
+def prehistoryCgn (c : Cfg) : World :=
+  prehistoryOn c 0 (setPref (((({} : World).addHost hostI clockI).addHost (cgnR c) clockR).addHost (cgnP c) clockP) 0 [2])
+
+def cgnCfgs : List Cfg := allCfgs.filter (fun c => c.pl == .same || c.pl == .diff)
+
+/-- script on the CGN-numbered world: introduction + contact + final tables (addresses read from the world), the handed-out
+    LAN address is P's, and behind one box the path is LAN only -/
+def cgnOk (c : Cfg) : Bool :=
+  let w0 := prehistoryCgn c
+  allOkDyn c w0 &&
+  (newEvents w0 (introduce c)).any (fun e => e.src == 0 && e.delivered 1 &&
+    (match e.msg with | .introResp _ _ _ p _ => p.lan_introduction_address == (cgnP c).lan | _ => false)) &&
+  (c.pl != .same || lanOnlyW c w0)
+
 /-! ## more candidates at the introducer -/
 
 /-- further candidates (hosts 3..6): public full-cone, port-restricted behind box 1 (R's box whenever R is boxed),
